@@ -112,7 +112,7 @@ def build_model():
     if os.path.exists(stamp) and open(stamp).read() == h and os.path.exists(exe):
         return True, ""
     models = sorted("Model/" + f[:-2] + ".vo" for f in os.listdir(os.path.join(COQ, "Model")) if f.endswith(".v"))
-    ok, lg = coq_make(models)
+    ok, lg = coq_make(models + ["Gen/Binds.vo", "Gen/Unicode.vo"])
     if not ok:
         return False, lg
     p = run(["coqc", "-Q", os.path.join(COQ, "Model"), "Model", "-Q", os.path.join(COQ, "Gen"), "Gen",
